@@ -29,7 +29,16 @@ def run_harness(mode, n, seed, out, timeout=1500, fixtures=None):
         import shutil
         shutil.rmtree(tmpd, ignore_errors=True)
     if p.returncode != 0 or not os.path.exists(out):
+        # a Go panic whose innermost frames are the library's own (not the harness's, not the store's) is the library
+        # crashing on a call sequence the harness is entitled to make: reported as a violation by the caller
+        m = re.search(r"^(panic: [^\n]*)\n(?:\t[^\n]*\n|\[[^\n]*\n)*\ngoroutine \d+ \[running\]:\n((?:[^\n]+\n\t[^\n]+\n){1,4})", p.stdout, re.M)
+        if m and "verif" not in m.group(1):
+            frames = [l for l in m.group(2).split("\n") if l and not l.startswith("\t")]
+            frames = [f for f in frames if not f.startswith(("panic(", "runtime.", "sync."))]
+            if frames and frames[0].startswith("github.com/tikv/client-go/v2/") and "/internal/mockstore/" not in frames[0]:
+                return "%s in %s" % (m.group(1), frames[0].split("(")[0])
         raise vlib.Infra("txn harness (%s) failed rc=%s:\n%s" % (mode, p.returncode, p.stdout[-3000:]))
+    return None
 
 def model_check(wd, tier="quick"):
     r = vlib.run_tlc(os.path.join(wd, "mc"), "MC_Percolator", workers=16, timeout=1500)
@@ -64,7 +73,12 @@ def run_txn_check(prop, families, tier, seed, replay, monitors=("TxnHistory",), 
             if mode in ("c05", "c14") and fixtures is None:
                 fixtures, nfix = gen_fixtures(wd, 3 if tier == "quick" else 4)
                 extra_cov = dict(extra_cov or {}, fixtures_generated=nfix)
-            run_harness(mode, nq if tier == "quick" else nt, seed, raw, fixtures=fixtures if mode in ("c05", "c14") else None)
+            crash = run_harness(mode, nq if tier == "quick" else nt, seed, raw, fixtures=fixtures if mode in ("c05", "c14") else None)
+            if crash:
+                tail = vlib.read_ndjson_lenient(raw)[-60:] if os.path.exists(raw) else []
+                v.violation("crash/" + re.sub(r"[^a-z0-9]+", "-", crash.lower())[:80] + "/" + mode, "the client library panicked under the %s workload: %s" % (mode, crash),
+                            replay_events=[{k: e[k] for k in e if k not in ("proj", "truth")} for e in tail])
+                continue
             traces.append((mode, raw))
     stats = {}
     samples = []
